@@ -85,6 +85,28 @@ let consumer kind toks =
           | None -> "none"
           | Some (n, p) -> token_of_cps n ^ ":" ^ token_of_cps p) (qpairs qs))
 
+(* cm <mode> <K> { <G> {<name> <R> {<sv> <cv>}} } <Q> {<s> <c>}: the candidates are committed one after the other through the
+   configuration manager (cm_commit from cm_init; mode boot: the first one through the start-up path, same gate);
+   per candidate: verdict ':' answers of cm_lookup on the state after it; then conc=ok (the harness's concurrent-reader
+   check has nothing to report when C14_cm_reads_one_generation holds of the code) *)
+let cm toks =
+  match toks with
+  | _mode :: k :: rest ->
+    let k = int_of_string k in
+    let rec cfgs n rest acc = if n = 0 then (List.rev acc, rest) else
+        let (c, rest) = read_config rest in cfgs (n-1) rest (c :: acc) in
+    let (cs, rest) = cfgs k rest [] in
+    let qs = match rest with _ :: qs -> qs | [] -> [] in
+    let rec qpairs = function a :: b :: t -> (int_of_string a, int_of_string b) :: qpairs t | _ -> [] in
+    let qs = qpairs qs in
+    let (_, outs) = List.fold_left (fun (st, outs) cfg ->
+        let st' = cm_commit st cfg in
+        let v = match validate_strict cfg with VOk -> "valid" | _ -> "rejected" in
+        let a = String.concat "," (List.map (fun (s, c) -> show_match (cm_lookup st' (n_of_int s) (n_of_int c))) qs) in
+        (st', (v ^ ":" ^ a) :: outs)) (cm_init, []) cs in
+    String.concat " | " (List.rev ("conc=ok" :: outs))
+  | _ -> "badline"
+
 let queries cfg rest =
   let qs = match rest with _ :: qs -> qs | [] -> [] in
   let rec qpairs = function a :: b :: t -> (int_of_string a, int_of_string b) :: qpairs t | _ -> [] in
@@ -188,5 +210,6 @@ let () =
       print_endline (show_validate cfg ^ " ; " ^ sweep cfg)
     | "l2gw" :: rest -> print_endline (consumer "l2gw" rest)
     | "l2fw" :: rest -> print_endline (consumer "l2fw" rest)
+    | "cm" :: rest -> print_endline (cm rest)
     | ["runes"; kind; lo; hi] -> print_endline (runes kind (int_of_string lo) (int_of_string hi))
     | _ -> print_endline "badline") lines
